@@ -28,6 +28,8 @@ from toqito.measurement_ops.measure import measure
 from toqito.measurement_props import is_povm
 
 from .. import qgen
+from ..exact import Pure, case_rng, present_nd, present_obj
+from ..exact import describe as pdescribe
 
 RULE = ("generators: every (function, option combination) for dimensions 1..6 - is_real on/off, k_param over None/1..dim, distance_metric haar/bures, scalar "
         "and list dim, Schmidt bound 0..min(dim), num_inputs 1..3 x num_outputs 1..4 (quick: a seeded subset of the larger grids) - each with seeds drawn from the "
@@ -36,7 +38,11 @@ RULE = ("generators: every (function, option combination) for dimensions 1..6 - 
         "default_rng().random(); non-trivial = contains a repeated seeded call separated by a global operation; ensembles: 2..6 states, dimension 2..4, pure "
         "(1-D / column) or mixed, dyadic priors (zeros allowed), spanning with lambda_min(sum p_i rho_i) >= 2e-2, plus non-spanning ones (observed only); "
         "measure: density states of dimension 2..5 x {single operator, list / tuple of Kraus operators (square, rectangular, projective, sqrt-POVM), incomplete "
-        "sets, zero-probability outcomes} x state_update; is_povm: valid sets and sets violating one condition by >= 1e-3; distinct = hash of the case description")
+        "sets, zero-probability outcomes} x state_update; is_povm: valid sets and sets violating one condition by >= 1e-3; distinct = hash of the case description. "
+        "Presentation: the arrays handed to pretty_good_measurement / pretty_bad_measurement (each state of the list independently), measure (state, single operator or "
+        "each operator of the list / tuple) and is_povm (each operator) are re-presentations of the same values determined by the case (C / Fortran / strided / "
+        "permuted-stride layout; zero imaginary part also as float64, integer values also as int64), so lists mix dtypes and layouts; after every call the arguments "
+        "(arrays, list / tuple objects, elements, the probability list) are compared with a deep snapshot")
 ASSUMPTIONS = [
     "PCG64 streams, LAPACK QR / SVD / eigh and scipy's fractional_matrix_power are runtime behaviour outside the model; their outputs are checked through the "
     "relations the theorems assume (unitarity, PSD, rank, POVM) with tolerances 1e-10 (generators), 1e-9 (PGM/PBM), 1e-10 (measure)",
@@ -151,6 +157,15 @@ def povm_defects(mats, tol, psd_tol):
     if r > tol:
         bad.append(f"sum - identity = {r:.3e}")
     return bad
+
+
+def impure(rep, guard, fn, info, pres):
+    """purity assertion: `guard = Pure(args...)` was taken before the call on exactly the objects handed to toqito"""
+    why = guard.modified()
+    if why:
+        rep.fail("arguments-modified", f"{fn}: caller's arguments were modified", {**info, "function": fn, "modified": why, "presentation": pres})
+        return True
+    return False
 
 
 class Reporter:
@@ -791,7 +806,12 @@ def check_pgm(ctx, rep, inst, with_opt=True):
             [[[float(np.real(z)), float(np.imag(z))] for z in np.asarray(s).reshape(-1)] for s in states], "lambda_min": lam}
     ctx.case({k: args[k] for k in ("kind", "dim", "n", "form", "complex", "probs", "states")}, n >= 2 and d >= 2, f"pgm/{form}/d={d}")
     info = {"function": "pretty_good_measurement", "args": args, "theorem": "pgm_is_povm"}
-    st, M = _call(pretty_good_measurement, [np.array(s) for s in states], list(probs))
+    prng = case_rng("c19/pgm", d, form, cplx, probs, args["states"])
+    # real-valued states start as complex128, so that each element independently arrives as complex128 / float64 / int64 (dtype-mixed lists)
+    pst, ppr = present_obj(prng, [np.array(s, dtype=complex) for s in states]), list(probs)
+    guard = Pure(pst, ppr)
+    st, M = _call(pretty_good_measurement, pst, ppr)
+    impure(rep, guard, "pretty_good_measurement", info, pdescribe(pst))
     if st != "ok":
         return rep.fail("raises", f"pretty_good_measurement raised {M} on a spanning ensemble (lambda_min = {lam:.3f})", {**info, "impl": M})
     if len(M) != n:
@@ -806,7 +826,10 @@ def check_pgm(ctx, rep, inst, with_opt=True):
         rep.fail("formula", f"pretty_good_measurement differs from P^-1/2 p_i rho_i P^-1/2 by {diff:.3e}", {**info, "impl": M, "expected": want})
     # pretty bad measurement
     infob = {**info, "function": "pretty_bad_measurement", "theorem": "pbm_is_povm"}
-    st, B = _call(pretty_bad_measurement, [np.array(s) for s in states], list(probs))
+    pst, ppr = present_obj(prng, [np.array(s, dtype=complex) for s in states]), list(probs)
+    guard = Pure(pst, ppr)
+    st, B = _call(pretty_bad_measurement, pst, ppr)
+    impure(rep, guard, "pretty_bad_measurement", infob, pdescribe(pst))
     if st != "ok":
         rep.fail("raises", f"pretty_bad_measurement raised {B} on a spanning ensemble", {**infob, "impl": B})
     else:
@@ -841,7 +864,7 @@ def check_pgm(ctx, rep, inst, with_opt=True):
 def observe_non_spanning(ctx, inst):
     d, states, rhos, probs, form, cplx, lam = inst
     ctx.case({"kind": "pgm-non-spanning", "dim": d, "n": len(states)}, False, "pgm/non-spanning(observed only)")
-    st, M = _call(pretty_good_measurement, [np.array(s) for s in states], list(probs))
+    st, M = _call(pretty_good_measurement, present_obj(case_rng("c19/pgm-non-spanning", d, probs, [np.asarray(s).tolist() for s in rhos]), [np.array(s) for s in states]), list(probs))
     if st != "ok":
         ctx.count("pgm/non-spanning/" + M.split(":")[0])
     elif not all(np.all(np.isfinite(np.asarray(m))) for m in M):
@@ -921,7 +944,12 @@ def check_measure(ctx, rep, case, container, state_update, tol_arg):
     if tol_arg is not None:
         kw["tol"] = tol_arg
     tol = 1e-10 if tol_arg is None else tol_arg
-    st, out = _call(measure, rho, meas, **kw)
+    prng = case_rng("c19/measure", kind, d, args["container"], state_update, tol_arg, args["rho"], args["ops"])
+    prho = present_nd(prng, np.asarray(rho, dtype=complex))
+    pmeas = present_obj(prng, np.asarray(meas, dtype=complex) if single else type(meas)(np.asarray(o, dtype=complex) for o in meas))   # container type kept
+    guard = Pure(prho, pmeas)
+    st, out = _call(measure, prho, pmeas, **kw)
+    impure(rep, guard, "measure", info, pdescribe([prho, pmeas]))
     oplist = [ops] if single else ops
     born = [float(np.trace(o.conj().T @ o @ rho).real) for o in oplist]
     dev = 0.0 if single else float(np.abs(sum(o.conj().T @ o for o in oplist) - np.eye(d)).max())
@@ -1009,8 +1037,11 @@ def check_is_povm(ctx, rep, rng):
     want = kind.startswith("valid")
     args = {"kind": "is_povm", "subkind": kind, "dim": d, "mats": [[[[float(z.real), float(z.imag)] for z in row] for row in np.asarray(m, dtype=complex)] for m in mats]}
     ctx.case(args, d >= 2, f"is_povm/{kind}")
-    st, got = _call(is_povm, [np.array(m) for m in mats])
+    pm = present_obj(case_rng("c19/is_povm", kind, d, args["mats"]), [np.array(m, dtype=complex) for m in mats])
+    guard = Pure(pm)
+    st, got = _call(is_povm, pm)
     info = {"function": "is_povm", "args": args, "expected": want, "theorem": "(definition IsPOVM)"}
+    impure(rep, guard, "is_povm", info, pdescribe(pm))
     if st != "ok":
         return rep.fail("raises", f"is_povm raised {got}", {**info, "impl": got})
     if bool(got) != want:
